@@ -223,6 +223,40 @@ def wildcard_field_filter(op: int, msg: str, ty: int, ch: int, et: int, ei: int,
     return True
 
 
+SUBKEYS = ("Position", "Velocity", "Acceleration")
+SUBSELS = ["*", "*ion", "Velocity", "Pos*", "?cceleration", "Nope"]
+
+
+@harness(pre=["0 <= op <= 9", "0 <= sel <= 5", "0 <= et <= 2", "0 <= es <= 1",
+              "(-2 <= a) & (a <= 4) & (-2 <= b) & (b <= 4) & (-2 <= c) & (c <= 4) & (-2 <= ei) & (ei <= 4)"], post="_", timeout=400,
+         note="sub-field (4-part) selectors through the real LLUDPMessageLogEntry.matches: `ObjectUpdate.ObjectData.ObjectData.<glob> "
+              "<op> <literal>` on a decoded dict-valued variable with three symbolic members (the decoded view is placed in the "
+              "block's decode cache, which is where matches() reads it from): true iff SOME member selected by the glob satisfies "
+              "the comparison (not just the first one the glob hits), with and without short-circuit; the bare existence form is "
+              "true iff the glob selects any member; never raises",
+         covers=(_L + "LLUDPMessageLogEntry.matches", _L + "AbstractMessageLogEntry._val_matches"))
+def subfield_glob_filter(op: int, sel: int, a: int, b: int, c: int, et: int, ei: int, es: int) -> bool:
+    import fnmatch
+    op, sel, et = OPS[small(op, 0, 9)], SUBSELS[small(sel, 0, 5)], small(et, 0, 2)
+    expected = [ei, STRS[small(es, 0, 4)], None][et]
+    block = Block("ObjectData", ObjectData=b"", ID=1)
+    block._ser_cache["ObjectData"] = dict(zip(SUBKEYS, (a, b, c)))
+    entry = LLUDPMessageLogEntry(Message("ObjectUpdate", block, direction=Direction.IN), None, None)
+    chosen = [v for k, v in zip(SUBKEYS, (a, b, c)) if fnmatch.fnmatchcase(k, sel)]
+    node = MessageFilterNode(("ObjectUpdate", "ObjectData", "ObjectData", sel), op, LiteralValue(expected))
+    want = any(py_semantics(op, v, expected) for v in chosen)
+    exists = MessageFilterNode(("ObjectUpdate", "ObjectData", "ObjectData", sel), None, None)
+    for sc in (True, False):
+        if bool(node.match(entry, sc)) != want:
+            return False
+        if bool(exists.match(entry, sc)) != bool(chosen):
+            return False
+    return True
+
+
+shard(subfield_glob_filter, "op", range(10), ["eq", "ne", "startswith", "endswith", "contains", "lt", "le", "gt", "ge", "and"], globals())
+
+
 # ------------------------------------------------------------------------------------------------ (3) view invariant
 class E:
     """minimal log entry: a name; matches() by name through the real filter nodes"""
